@@ -289,12 +289,16 @@ def fm_check(kind, case, rec):
     rec.nontrivial = len(b.points) >= 2
     got = np.asarray(fem.tools.force(fc, fv, b)).ravel()
     rec.close("force=sum-over-boundary-points", float(np.abs(got - fr[b.points].sum(0)).max()), 1e-13)
+    c = np.array(case["center"])[:dim]
+    x = X + fc.fields[0].values
+    r_ = x[b.points] - c
     if dim == 3:
-        c = np.array(case["center"])
-        x = X + fc.fields[0].values
-        ref = np.cross(x[b.points] - c, fr[b.points]).sum(0)
-        got = np.asarray(fem.tools.moment(fc, fv, b, centerpoint=c)).ravel()
-        rec.close("moment=sum-of-position-cross-force", float(np.abs(got - ref).max()) / max(1.0, float(np.abs(ref).max())), 1e-12)
+        ref = np.cross(r_, fr[b.points]).sum(0)
+    else:
+        # plane problems: the moment about the out-of-plane axis
+        ref = np.array([(r_[:, 0] * fr[b.points][:, 1] - r_[:, 1] * fr[b.points][:, 0]).sum()])
+    got = np.asarray(fem.tools.moment(fc, fv, b, centerpoint=np.array(case["center"]) if case["seed"] % 2 else c)).ravel()
+    rec.close("moment=sum-of-position-cross-force", float(np.abs(got - ref).max()) / max(1.0, float(np.abs(ref).max())) if got.shape == ref.shape else float("inf"), 1e-12)
 
 
 FAMILIES = [
